@@ -730,6 +730,11 @@ class Evaluator:
                 and args[0][1] in ("bool::then", "bool::then_some"):
             # cond.then(|| v).unwrap_or(d): one of the two values
             v = args[0][2][1] if args[0][1] == "bool::then_some" else self.closure_ret(ctx, args[0][2][1], [])
+            from guards import bool_facts as _bf, unref as _ur2
+            for f_ in _bf(args[0][2][0], True):
+                # `(x <= d).then_some(x).unwrap_or(d)` is min(x, d)
+                if len(f_) == 3 and f_[0] in ("le", "lt") and _ur2(f_[1]) == _ur2(v) and _ur2(f_[2]) == _ur2(args[1]):
+                    return ("call", "min", (v, args[1]))
             res = mk_phi([args[1], v])
             from guards import bool_facts
             self.alt_facts.setdefault(res, {}).update({v: bool_facts(args[0][2][0], True), args[1]: bool_facts(args[0][2][0], False)})
